@@ -59,18 +59,20 @@ type Exec struct {
 	freshN     int
 	objN       int
 
-	globals      map[string]*Object
-	ginit        map[*ssa.Package]*globalInit
-	mutGlobals   map[*ssa.Global]bool
-	closureAlias map[*ssa.Function]string // anonymous functions whose contract is written under another ordinal (AlignClosures)
-	AliasNotes   []string
-	globalRows   map[*ssa.Global]int64 // heap rows of package-level arrays of the module
-	inInit       bool
-	initHeaps    map[string]*Term
-	initFacts    []*Term
-	initMem      map[*Object]Value
-	initAlloc    int64
-	initBoxes    map[int64]Value
+	globals        map[string]*Object
+	ginit          map[*ssa.Package]*globalInit
+	mutGlobals     map[*ssa.Global]bool
+	closureAlias   map[*ssa.Function]string // anonymous functions whose contract is written under another ordinal (AlignClosures)
+	AliasNotes     []string
+	LocalsBaseline map[string][]LocalInfo // spec/locals_baseline.json
+	applyingFn     *ssa.Function          // callee whose contract is being applied at a call site
+	globalRows     map[*ssa.Global]int64  // heap rows of package-level arrays of the module
+	inInit         bool
+	initHeaps      map[string]*Term
+	initFacts      []*Term
+	initMem        map[*Object]Value
+	initAlloc      int64
+	initBoxes      map[int64]Value
 
 	Findings map[string]*Finding
 	regexps  map[int64]string
